@@ -160,6 +160,24 @@ func Param(name string, def int) int {
 
 func Unix(sec int64, loc *time.Location) time.Time { return time.Unix(sec, 0).In(loc) }
 
+func And(xs ...bool) bool {
+	for _, x := range xs {
+		if !x {
+			return false
+		}
+	}
+	return true
+}
+func Or(xs ...bool) bool {
+	for _, x := range xs {
+		if x {
+			return true
+		}
+	}
+	return false
+}
+func Implies(a, b bool) bool { return !a || b }
+
 func P[X any](v X) *X { return &v }
 
 // DeepEq: graph isomorphism from the two roots. nil and empty slices are
